@@ -15,5 +15,8 @@ theorem C11_gen_poolSpawnRefusal : Generated.poolSpawnRefusal = some spawnRefusa
 theorem C11_gen_poolClearDecrementsTasksOnly : Generated.poolClearDecrementsTasksOnly = some clearDecrementsTasksOnlySpec := by decide
 /-- The failure branch of `__start_thread` leaves the accounting untouched, so `stop()` finds `nb_threads = 0` afterwards. -/
 theorem C11_gen_poolStartRollback : Generated.poolStartRollback = some startRollbackSpec := by decide
+/-- `stop()` and `enqueue()` put into the queue with a blocking, timed `put` (the model's `stopPut` / `enqPut` steps): on
+    a bounded queue every listed worker gets its stop marker as soon as there is room for it. -/
+theorem C11_gen_poolQueuePuts : Generated.poolQueuePuts = some queuePutsSpec := by decide
 
 end JRV.Props
